@@ -263,3 +263,23 @@ KKLS = "analysis/kramers_kronig/least_squares.py"
 V("c07-tolerant-zero-guard", "C07", KKMI, "        if C == 0.0:\n            C = 1e-50", "        if abs(C) < 1e-8:\n            C = 1e-50", "fire", "zero-guard:C")
 V("c09-tolerant-zero-guard", "C09", KKLS, "                if R == 0.0:\n                    R = inf", "                if abs(R) < 1e-8:\n                    R = inf", "fire", "zero-guard:R")
 V("c07-benign-zero-guard-int", "C07", KKMI, "        if C == 0.0:\n            C = 1e-50", "        if C == 0:\n            C = 1e-50", "silent")
+
+# ---------------------------------------------------------------- C19
+CFIT = "cli/fit.py"
+CDRT = "cli/drt.py"
+CUTIL = "cli/utility.py"
+V("c19-swap-options", "C19", CFIT, "                method=args.method,\n                weight=args.weight,\n                max_nfev=args.max_nfev,\n                num_procs=args.num_procs,\n                timeout=args.timeout,\n            )\n            for _",
+  "                method=args.weight,\n                weight=args.method,\n                max_nfev=args.max_nfev,\n                num_procs=args.num_procs,\n                timeout=args.timeout,\n            )\n            for _", "fire", "fit_circuit:method")
+V("c19-refinement-drops-option", "C19", CFIT, "                    max_nfev=args.max_nfev,\n                    num_procs=args.num_procs,\n                    timeout=args.timeout,\n                )\n            clear", "                    num_procs=args.num_procs,\n                    timeout=args.timeout,\n                )\n            clear", "fire", "max_nfev:not-forwarded")
+V("c19-refinement-restarts", "C19", CFIT, "                fit = fit_circuit(\n                    fit.circuit,", "                fit = fit_circuit(\n                    circuit,", "fire", "fit.command:refinement")
+V("c19-filters-swapped", "C19", CUTIL, "        data.low_pass(args.low_pass_cutoff)", "        data.high_pass(args.low_pass_cutoff)", "fire", "apply_filters:mapping")
+V("c19-filter-after-use", "C19", "cli/parse.py", "        num_data: int = len(data_sets)\n        list(map(lambda _: apply_filters(_, args), data_sets))\n", "        num_data: int = len(data_sets)\n", "fire", "parse.command:filters")
+V("c19-format-wrong-writer", "C19", CUTIL, "        output = df.to_json()", "        output = df.T.to_json()", "fire", "format_text:dispatch")
+V("c19-format-rounds", "C19", CUTIL, "    output_extension: str = get_text_extension(args.output_format)\n\n    output: str", "    output_extension: str = get_text_extension(args.output_format)\n    df = df.round(3)\n\n    output: str", "fire", "format_text:dispatch")
+V("c19-mock-key-renamed", "C19", CUTIL, "        \"num_per_decade\": int,\n        \"log_max_f\"", "        \"points_per_decade\": int,\n        \"log_max_f\"", "fire", "_parse_identity:keys")
+V("c19-drt-sibling", "C19", CDRT, "                num_attempts=args.num_attempts,\n                maximum_symmetry=args.maximum_symmetry,\n                circuit=parse_cdc(args.circuit),\n                gaussian_width=args.gaussian_width,\n                num_per_decade=args.num_per_decade,\n                max_nfev=args.max_nfev,\n                max_iter=args.max_iter,\n                model_order=args.model_order,\n                model_order_method=args.model_order_method,\n                num_procs=args.num_procs,\n            )\n            drts.append(",
+  "                num_attempts=args.num_attempts,\n                maximum_symmetry=args.maximum_symmetry,\n                circuit=parse_cdc(args.circuit),\n                gaussian_width=args.gaussian_width,\n                num_per_decade=args.num_per_decade,\n                max_nfev=args.max_iter,\n                max_iter=args.max_nfev,\n                model_order=args.model_order,\n                model_order_method=args.model_order_method,\n                num_procs=args.num_procs,\n            )\n            drts.append(", "fire", "calculate_drt:max_nfev")
+V("c19-report-stale", "C19", CFIT, "                        fit.to_parameters_dataframe(running=args.running_count),", "                        first.to_parameters_dataframe(running=args.running_count),", "fire", "provenance")
+V("c19-emission-removed", "C19", "cli/circuit.py", "        else:\n            print_func(result)\n\n        plt.close()", "        plt.close()", "fire", "circuit.individual_plots:result:not-emitted")
+V("c19-benign-kw-order", "C19", CFIT, "                method=args.method,\n                weight=args.weight,\n                max_nfev=args.max_nfev,\n                num_procs=args.num_procs,\n                timeout=args.timeout,\n            )\n            for _",
+  "                weight=args.weight,\n                method=args.method,\n                max_nfev=args.max_nfev,\n                num_procs=args.num_procs,\n                timeout=args.timeout,\n            )\n            for _", "silent")
